@@ -159,7 +159,7 @@ impl Backend {
         .await
         .with_context(|| format!("Unable to read from file {:?}", url))?;
 
-        self.update_document(url, &content, language_id).await
+        self.update_document(url, &content, language_id, None).await
     }
 
     async fn update_document(
@@ -167,6 +167,7 @@ impl Backend {
         url: &Url,
         text: &str,
         language_id: Option<&str>,
+        version: Option<i32>,
     ) -> Result<()> {
         self.pull_config().await;
 
@@ -207,6 +208,17 @@ impl Backend {
             info!("Constructing new linter because of modified dictionary.");
             doc_state.linter =
                 LintGroup::new_curated(dict.clone(), dialect).with_lint_config(lint_config.clone());
+        }
+
+        // Handlers run concurrently and may finish out of order: never replace the text of a newer
+        // version of the document by that of an older one.
+        if let (Some(new), Some(current)) = (version, doc_state.version) {
+            if new < current {
+                return Ok(());
+            }
+        }
+        if version.is_some() {
+            doc_state.version = version;
         }
 
         let Some(language_id) = &doc_state.language_id else {
@@ -454,6 +466,7 @@ impl LanguageServer for Backend {
             &params.text_document.uri,
             &params.text_document.text,
             Some(&params.text_document.language_id),
+            Some(params.text_document.version),
         )
         .await
         .map_err(|err| error!("{err}"))
@@ -468,7 +481,12 @@ impl LanguageServer for Backend {
         };
 
         if let Err(err) = self
-            .update_document(&params.text_document.uri, &last.text, None)
+            .update_document(
+                &params.text_document.uri,
+                &last.text,
+                None,
+                Some(params.text_document.version),
+            )
             .await
         {
             error!("{err}")
